@@ -83,6 +83,10 @@ def generate(prop, rng):
                     continue
                 edits.append({"op": kind, "rel": rng.choice(sorted(trees[prior])),
                               "content": rng.randrange(len(pool)), "uncached": rng.random() < 0.5})
+        if trees[prior] and rng.random() < 0.25:
+            # some prior files are symbolic links into ANOTHER copy of the cache (the store was moved)
+            for rel in rng.sample(sorted(trees[prior]), rng.randint(1, min(2, len(trees[prior])))):
+                edits.append({"op": "oldcache", "rel": rel})
         if rng.random() < 0.25:
             # two names with identical content in both trees, hard-linked to EACH OTHER by the user
             ci = rng.randrange(len(pool))
@@ -541,6 +545,14 @@ def _exec_c10(sc, ctx, env):
                     env.ctx.clock.advance(10**9)
                     REAL["os.unlink"](pb)
                     REAL["os.link"](pa, pb)
+            elif e["op"] == "oldcache":
+                if e["rel"] in prior_t and os.path.lexists(p) and not os.path.isdir(p):
+                    data = env.contents[prior_t[e["rel"]]]
+                    oid = model.ref_digest("md5", data)
+                    env.w.raw_add("cache-old", "local", oid, data)
+                    REAL["os.unlink"](p)
+                    REAL["os.symlink"](os.path.join(env.w.p("cache-old"), oid[:2], oid[2:]), p)
+                    ctx.probe("prior_symlink_into_another_cache_copy")
             elif e["op"] == "replace":
                 data = env.contents[e["content"]]
                 if e.get("uncached"):
@@ -554,6 +566,7 @@ def _exec_c10(sc, ctx, env):
     want = want_for(sc["target"])
     disc = f"{cfg['l0']}->{cfg['l1']}"
     n_before = nsaved[0]
+    ev_first = len(seam.events)
     try:
         checkout(path, env.w.localfs, obj_for(sc["target"]), env.odb, force=True, state=env.state)
     except Exception as exc:  # noqa: BLE001
@@ -568,7 +581,7 @@ def _exec_c10(sc, ctx, env):
             f"missing={sorted(set(want) - set(got))} extra={sorted(set(got) - set(want))} "
             f"wrong={[r for r in want if r in got and got[r] != want[r]]}",
         )
-    _check_record(ctx, env, path, "first", disc, saved=nsaved[0] > n_before)
+    _check_record(ctx, env, path, "first", disc, saved=nsaved[0] > n_before, changed=_ws_mutated(seam, ev_first))
     # second call: nothing to do, no workspace mutation
     n0 = len(seam.events)
     ctx.clock.advance(10**9)
@@ -585,6 +598,7 @@ def _exec_c10(sc, ctx, env):
     # relink
     ctx.clock.advance(10**9)
     n_before = nsaved[0]
+    ev_relink = len(seam.events)
     try:
         checkout(path, env.w.localfs, obj_for(sc["target"]), env.odb, force=True, relink=True, state=env.state)
     except Exception as exc:  # noqa: BLE001
@@ -612,7 +626,7 @@ def _exec_c10(sc, ctx, env):
         elif l1 == "symlink":
             if not stat.S_ISLNK(lst.st_mode) or os.readlink(fp) != cpath:
                 ctx.violate("relink-wrong-type", f"want-symlink:{disc}", f"{rel}: {os.readlink(fp) if stat.S_ISLNK(lst.st_mode) else 'not a symlink'}")
-    _check_record(ctx, env, path, "relink", disc, saved=nsaved[0] > n_before)
+    _check_record(ctx, env, path, "relink", disc, saved=nsaved[0] > n_before, changed=_ws_mutated(seam, ev_relink))
     cache1 = env.cache_objs()
     changed = sorted(o for o in cache0 if cache1.get(o) != cache0[o])
     if changed:
@@ -625,8 +639,17 @@ def _exec_c10(sc, ctx, env):
     ctx.probe(f"links_{cfg['l0']}_to_{cfg['l1']}")
 
 
-def _check_record(ctx, env, path, when, disc, saved=True):
+def _ws_mutated(seam, since):
+    return any(e[0] is not None and ((e[3] or "").startswith("ws/") or (e[4] or "").startswith("ws/")) for e in seam.events[since:])
+
+
+def _check_record(ctx, env, path, when, disc, saved=True, changed=False):
     if env.state is None:
+        return
+    if not saved and changed:
+        # the call created / replaced / deleted something under the path: the record it leaves must
+        # describe the result, so it has to save one
+        ctx.violate("link-record-not-saved", f"{when}:{disc}", "the checkout changed the workspace and saved no link record")
         return
     if not saved:
         # this call had nothing to do and saved no record: an older record may
